@@ -403,3 +403,39 @@ def gellmann_basis(d):
         diag.append(m * math.sqrt(2 / (l * (l + 1))))
     ident = [np.eye(d, dtype=np.complex128) * math.sqrt(2 / d)]
     return np.stack(sym + asym + diag + ident)
+
+
+def partial_trace_fast(rho, dims, keep):
+    """second independent implementation: successive np.trace over axis pairs (highest index first)"""
+    dims = list(dims)
+    n = len(dims)
+    keep = sorted(keep)
+    t = np.asarray(rho).reshape(dims + dims)
+    cur = n
+    for i in reversed(range(n)):
+        if i not in keep:
+            t = np.trace(t, axis1=i, axis2=i + cur)
+            cur -= 1
+    K = int(np.prod([dims[i] for i in keep])) if keep else 1
+    return np.asarray(t).reshape(K, K)
+
+
+def dicke_vector(klist, dim):
+    """normalised uniform superposition of all distinct arrangements with klist[j] qudits in level j"""
+    levels = [j for j, c in enumerate(klist) for _ in range(c)]
+    n = len(levels)
+    arr = set(itertools.permutations(levels))
+    v = np.zeros(dim ** n)
+    for a in arr:
+        idx = 0
+        for x in a:
+            idx = idx * dim + x
+        v[idx] = 1.0
+    return v / math.sqrt(len(arr))
+
+
+def compositions(n, d):
+    """all tuples of d non-negative integers summing to n"""
+    if d == 1:
+        return [(n,)]
+    return [(x,) + y for x in range(n + 1) for y in compositions(n - x, d - 1)]
